@@ -297,7 +297,7 @@ pub fn run(run: &mut Run) {
 use crate::seq::explore as explore_seq;
 
 
-/// the real TCP and HTTP servers: every sequence of up to 3 use-db commands, then the transport's
+/// the real TCP, HTTP and WebSocket servers: every sequence of up to 3 use-db commands, then the transport's
 /// own end-of-connection path; $connections must be back where it was
 fn transports(run: &mut Run) {
     let node = Node::new_single("c17-net");
@@ -310,6 +310,7 @@ fn transports(run: &mut Run) {
     let _ = admin.disconnect(&node);
     let tcp = crate::tcp::TcpServer::start(node.dbs.clone());
     let http = crate::http::HttpServer::start(node.dbs.clone());
+    let ws = crate::ws::WsServer::start(node.dbs.clone());
     let cmds = ["use-db t tok", "use-db u tok2", "use-db t nope", "use-db t bob bt", "use-db t bob nope"];
     let mut seqs: Vec<Vec<&str>> = vec![vec![]];
     for len in 1..=3 {
@@ -337,7 +338,7 @@ fn transports(run: &mut Run) {
     let count = |db: &str| (counter_key(&node, db).and_then(|k| k.parse::<i64>().ok()).unwrap_or(0), counter_field(&node, db) as i64);
     let mut n = 0u64;
     for sq in seqs.iter() {
-        for transport in ["tcp", "http"] {
+        for transport in ["tcp", "http", "websocket"] {
             n += 1;
             let before = (count("t"), count("u"));
             let mid;
@@ -351,6 +352,22 @@ fn transports(run: &mut Run) {
                     run.violate(Violation { clause: "disconnect-failed".into(), shape: format!("{}: {}", transport, sq.join(" ; ")), detail: "the server did not finish its end-of-connection path".into(), replay: json!({"engine":"transport","transport":transport,"commands":sq}) });
                     continue;
                 }
+            } else if transport == "websocket" {
+                // one frame per command, then the closing handshake (on_close releases the session)
+                let mut c = match ws.connect() {
+                    Ok(c) => c,
+                    Err(e) => {
+                        run.violate(Violation { clause: "disconnect-failed".into(), shape: format!("{}: {}", transport, sq.join(" ; ")), detail: format!("cannot connect: {}", e), replay: json!({"engine":"transport","transport":transport,"commands":sq}) });
+                        continue;
+                    }
+                };
+                let frames: Vec<String> = sq.iter().map(|l| l.to_string()).collect();
+                let answered = c.frames_until_marker(&frames).is_some();
+                mid = (count("t"), count("u"));
+                if !answered || !c.close_and_wait() {
+                    run.violate(Violation { clause: "disconnect-failed".into(), shape: format!("{}: {}", transport, sq.join(" ; ")), detail: "the WebSocket server did not answer or did not finish the closing handshake".into(), replay: json!({"engine":"transport","transport":transport,"commands":sq}) });
+                    continue;
+                }
             } else {
                 let body = sq.join(";");
                 if http.post(&body).is_err() {
@@ -360,7 +377,7 @@ fn transports(run: &mut Run) {
                 mid = before;
             }
             // while open (tcp): the database of the last successful selection counts one more
-            if transport == "tcp" {
+            if transport == "tcp" || transport == "websocket" {
                 let mut sel: Option<&str> = None;
                 for l in sq.iter() {
                     match *l {
